@@ -27,6 +27,11 @@ def akai_subject(variant):
         files.append({"name": "TAIL", "n": 6000, "chain": [12, 11], "seq": 6})      # a multi-sector file late in the table
         # one name byte away from KICK, with four entries between the two (a damaged name can equal a sibling that is not its neighbour)
         files.append({"name": "KICL", "n": 500, "chain": [13], "seq": 7})
+    if variant >= 3:
+        # one name byte away from the STEM of the L/R pair, in front of the pair and behind it (a damaged name can equal the
+        # name the merged pair is written under)
+        files.insert(0, {"name": "PAD2", "n": 700, "chain": [14], "seq": 8})
+        files.append({"name": "PAD1", "n": 800, "chain": [15], "seq": 9})
     spec = {"parts": [{"vols": [{"name": "VOL", "dir": [3], "files": files}]}]}
     model = A.model_from_spec(spec)
     img, layout = A.build_akai(model)
@@ -225,7 +230,7 @@ class Check(CheckBase):
     id = "C14"
     level = "fault_enumeration"
     title = "A damaged directory entry affects only that entry"
-    rule = ("AKAI volumes with 3, 4 and 7 files (two names one byte apart at the ends of the directory) (fragmented sample with timed and held loops late in its audio, L/R pair, program, a file filling its last sector): every "
+    rule = ("AKAI volumes with 3, 4, 7 and 9 files (two names one byte apart at the ends of the directory; in the 9-file volume two names one byte away from the STEM of the L/R pair, one in front of the pair and one behind it, 15-value menu in both tiers) (fragmented sample with timed and held loops late in its audio, L/R pair, program, a file filling its last sector): every "
             "entry x each of its 24 bytes x value menu (15 values quick / all 256 thorough); Roland performance with 3 samples "
             "(permuted chain, reverse mode behind a leading-cluster offset, release-end mode): every byte of each sample's 32-byte directory record and 48-byte "
             "parameter record x the same menus (thorough: all 256 for sample 1, menu for the others); thorough also all byte "
@@ -252,8 +257,13 @@ class Check(CheckBase):
                         for p1, p2 in itertools.combinations(range(fo, fo + fw), 2):
                             for v1, v2 in itertools.product(MENU, repeat=2):
                                 cases.append({"subject": key, "entry": e, "bytes": [[p1, v1], [p2, v2]]})
+        # the 9-file volume (entries one byte away from the pair's stem): every entry x every byte x the 15-value menu in both tiers
+        for e in range(9):
+            for pos in range(24):
+                for v in MENU:
+                    cases.append({"subject": "akai3", "entry": e, "bytes": [[pos, v]]})
         # targeted: the single name byte that turns an entry's name into a sibling's name (PAD-L <-> PAD-R, TOM <-> TON)
-        for key in ("akai0", "akai1", "akai2"):
+        for key in ("akai0", "akai1", "akai2", "akai3"):
             img, items, path, base = subject(key)
             for e, it in enumerate(items):
                 for o, other in enumerate(items):
@@ -281,7 +291,7 @@ class Check(CheckBase):
                     cases.append({"subject": key, "entry": e, "bytes": field(17, 3, v)})
         # targeted: the whole NAME field at once (all blanks -> the empty name, all '0', all 'A', all ones, and a name cut down to
         # its first character)
-        for key in ("akai0", "akai1", "akai2"):
+        for key in ("akai0", "akai1", "akai2", "akai3"):
             img, items, path, base = subject(key)
             for e in range(len(items)):
                 for v in (0x0A, 0x00, 0x0B, 0x28, 0xFF):
